@@ -125,7 +125,9 @@ class Sub:
                         np.array([n, h, w_, filters], np.int32))
     w = self.const(out_name + '_w', self._w(out_name, (filters, 1, 1, cin), 1))
     ins = [oshape, w, x]
-    if bias:
+    if bias == 'empty':  # the slot is there, the operand is not (-1)
+      ins.append(-1)
+    elif bias:
       ins.append(self.const(out_name + '_b', self._w(out_name, (filters,), 2)))
     y = self.act(out_name, (n, h, w_, filters))
     o = S.TransposeConvOptionsT()
@@ -328,13 +330,18 @@ def const_buffers_model(lengths, raw=False):
   """y_i = ADD(x, c_i) for constants c_i with the given buffer byte lengths.
 
   lengths: list of int (bytes; rounded up to a multiple of 4 unless raw; 0
-  gives a present-but-empty buffer, fed to a RELU) or None (no data: an extra
-  graph input instead of a constant).
+  gives a present-but-empty buffer, fed to a RELU), None (no data: an extra
+  graph input instead of a constant) or 'U<k>' (a buffer of k bytes that no
+  tensor refers to).
   """
   mb = ModelBuilder()
   sg = mb.subgraph()
   x = sg.input('x', (1, 1))
   for i, n in enumerate(lengths):
+    if isinstance(n, str):
+      # 'U<k>': a left-over buffer of k bytes that no tensor refers to
+      mb.new_buffer(bytes((j * 7 + i) % 251 for j in range(int(n[1:]))))
+      continue
     if n is None:
       other = sg.input(f'in_{i}', (1, 1))
       sg.output(sg.binary('ADD', x, other, f'y_{i}'))
